@@ -650,10 +650,28 @@ def _vector_container_branches(prog, rep, rules):
                 continue
             if scen == "absent":
                 ok = texts == ["Constant(0.0)"]
+                if not ok and len(texts) > 1 and "Constant(0.0)" in texts:
+                    rep.undecided(f"{fi.name}: absent-variable branch depends on a test the symbolic walk could not decide ({len(texts)} outcomes)")
+                    continue
+                if not ok and any(isinstance(c, (ast.IfExp,)) or (isinstance(c, ast.Call) and (dotted(c.func) or "?") not in ("Constant", "float")) for v in vals for c in ast.walk(v)):
+                    rep.undecided(f"{fi.name}: absent-variable branch not resolved by the symbolic walk ({texts[0][:60]})")
+                    continue
                 rep.ob("R02.5", fi.name, ok, "a variable that is not in the vector differentiates to Constant(0.0)" if ok else f"for a variable that does not occur in the vector the rule returns {texts[:2]} instead of Constant(0.0)", loc=fi.loc, detail="container-branch:absent")
             else:
                 want = [e.replace(" ", "") for e in expected]
                 ok = texts == want
+                # a result that still contains a call this walk could not resolve (a search helper, next(...), a
+                # conditional on it) is not a verdict
+                vocab = {"Constant", "float", "int", "LinearCombination", "BinaryOp", "UnaryOp", "abs_", "_simplify_div", "_simplify_mul", "_simplify_add", "_simplify_sub", "_simplify_neg"}
+                opaque = sorted({dotted(c.func) or src(c.func)[:20] for v in vals for c in ast.walk(v) if isinstance(c, ast.Call) and (dotted(c.func) or "?") not in vocab} | {"<conditional>" for v in vals for c in ast.walk(v) if isinstance(c, ast.IfExp)})
+                if not ok and opaque:
+                    rep.undecided(f"{fi.name}: member branch not resolved by the symbolic walk (unresolved: {opaque[:3]})")
+                    continue
+                if not ok and len(texts) > 1 and any(t in want for t in texts):
+                    # the walk forked on a test it could not decide (e.g. a membership helper); one branch is the
+                    # expected value, the other belongs to the other scenario
+                    rep.undecided(f"{fi.name}: member branch depends on a test the symbolic walk could not decide ({len(texts)} outcomes)")
+                    continue
                 if not ok and any("OTHER" in t or len(t) > 200 for t in texts):
                     rep.undecided(f"{fi.name}: member branch not interpretable: {texts[0][:80]}")
                     continue
